@@ -59,6 +59,8 @@ func keyGroup(k int) int {
 		return 5
 	case SecLocObj, SecLocObjReader:
 		return 6
+	case SecThreeNil, SecIfThreeNil, SecThreeSet:
+		return 7
 	}
 	return 0
 }
